@@ -1158,6 +1158,124 @@ Definition path_events_gen (ev_of : Z -> list Z) (l : list Z) : list Z := flat_m
     return "gen/PathSets_gen.v"
 
 
+# ---- CommunicationAnalysis.get_comm_comp_overlap (hta/analyzers/communication_analysis.py) -> coq/gen/OverlapRules_gen.v ----
+def gen_overlap_rules() -> str:
+    """Reads the per-rank helper get_comm_comp_overlap_value statement by statement (strict shape): device rows by `stream != -1`, kinds
+    by get_kernel_type of the full name, the two merged interval lists, the boundary rows (+1/-1 communication, +2/-2 computation), the
+    sort by time, the running sum, the rows where it equals 3 credited the time to the next row, the ratio over the merged
+    communication time; and the two-decimal percentage."""
+    path = "hta/analyzers/communication_analysis.py"
+    tree = ast.parse(open(os.path.join(fw.REPO, path)).read())
+    cls = next((n for n in tree.body if isinstance(n, ast.ClassDef) and n.name == "CommunicationAnalysis"), None)
+    fn = next((n for n in (cls.body if cls else []) if isinstance(n, ast.FunctionDef) and n.name == "get_comm_comp_overlap"), None)
+    inner = next((n for n in (fn.body if fn else []) if isinstance(n, ast.FunctionDef) and n.name == "get_comm_comp_overlap_value"), None)
+    if inner is None:
+        raise Stop("CommunicationAnalysis.get_comm_comp_overlap / get_comm_comp_overlap_value not found")
+    texts = [ast.unparse(st) for st in inner.body if not (isinstance(st, ast.Expr) and isinstance(st.value, ast.Constant))]
+    want = ["gpu_kernels = trace_df[trace_df['stream'].ne(-1)].copy()",
+            "gpu_kernels['kernel_type'] = gpu_kernels[['name']].apply(lambda x: get_kernel_type(sym_table[x['name']]), axis=1)",
+            "comp_kernels = merge_kernel_intervals(gpu_kernels[gpu_kernels['kernel_type'].eq(KernelType.COMPUTATION.name)].copy())",
+            "comm_kernels = merge_kernel_intervals(gpu_kernels[gpu_kernels['kernel_type'].eq(KernelType.COMMUNICATION.name)].copy())",
+            "status_df = pd.concat([comm_kernels.melt(var_name='status', value_name='time').replace({'ts': 1, 'end': -1}), "
+            "comp_kernels.melt(var_name='status', value_name='time').replace({'ts': 2, 'end': -2})]).sort_values(by='time').reset_index(drop=True)",
+            "status_df['running'] = status_df['status'].cumsum()",
+            "overlap = status_df[status_df['running'].eq(3)]",
+            "shifted_overlap = overlap.merge(status_df.shift(-1).dropna(), left_index=True, right_index=True)",
+            "return (shifted_overlap['time_y'] - shifted_overlap['time_x']).sum() / (comm_kernels['end'] - comm_kernels['ts']).sum()"]
+    if texts != want:
+        bad = next((a for a, b in zip(texts, want) if a != b), f"{len(texts)} statements instead of {len(want)}")
+        raise Stop(f"get_comm_comp_overlap_value: `{bad[:150]}` is not what the model was written for")
+    outer = [ast.unparse(st) for st in fn.body if not isinstance(st, ast.FunctionDef) and not (isinstance(st, ast.Expr) and isinstance(st.value, ast.Constant))]
+    need = ["sym_table = t.symbol_table.get_sym_table()",
+            "for rank, trace_df in t.traces.items():\n    result['rank'].append(rank)\n    result['comp_comm_overlap_ratio'].append(get_comm_comp_overlap_value(trace_df))",
+            "result_df['comp_comm_overlap_pctg'] = round(100 * result_df['comp_comm_overlap_ratio'], 2)",
+            "return result_df[['rank', 'comp_comm_overlap_pctg']]"]
+    for w in need:
+        if w not in outer:
+            raise Stop(f"get_comm_comp_overlap: statement not found as the model expects it: `{w[:110]}`")
+    out = '''(* GENERATED by harness/translate.py from hta/analyzers/communication_analysis.py (CommunicationAnalysis.get_comm_comp_overlap) -- do not edit.
+   Weights of the boundary rows, the running value that counts as overlap, and the scale of the reported number. *)
+From HTA.lib Require Import Base.
+Open Scope Z_scope.
+
+Definition comm_weight_gen : Z := 1.
+Definition comp_weight_gen : Z := 2.
+Definition overlap_level_gen : Z := 3.
+Definition percent_scale_gen : Z := 100.
+'''
+    write_if_changed(os.path.join(GEN, "OverlapRules_gen.v"), out)
+    return "gen/OverlapRules_gen.v"
+
+
+# ---- merge_kernel_intervals (hta/utils/utils.py), _get_idle_time_for_kernels and idle_time_per_rank (breakdown_analysis.py) -> coq/gen/BreakdownRules_gen.v ----
+def gen_breakdown_rules() -> str:
+    """Reads merge_kernel_intervals (sort by ts, end = ts + dur, a new group when ts is STRICTLY greater than the running maximum of the
+    previous ends, per group min ts / max end), _get_idle_time_for_kernels (span of the merged list, idle = span - merged run time) and the
+    per-rank helper of get_temporal_breakdown (device rows by stream != -1, computation kernels by get_kernel_type, non-compute = the
+    remainder, the three assertions) statement by statement (strict shape)."""
+    utils = ast.parse(open(os.path.join(fw.REPO, "hta/utils/utils.py")).read())
+    mk = next((n for n in utils.body if isinstance(n, ast.FunctionDef) and n.name == "merge_kernel_intervals"), None)
+    if mk is None:
+        raise Stop("merge_kernel_intervals not found")
+    texts = [ast.unparse(st) for st in mk.body if not (isinstance(st, ast.Expr) and isinstance(st.value, ast.Constant))]
+    want = ["kernel_df.sort_values(by='ts', inplace=True)",
+            "kernel_df['end'] = kernel_df['ts'] + kernel_df['dur']",
+            "kernel_df['group'] = (kernel_df['ts'] > kernel_df['end'].shift().cummax()).cumsum()",
+            "kernel_df = kernel_df.groupby('group', as_index=False).agg({'ts': 'min', 'end': 'max'}).drop(['group'], axis=1).sort_values(by='ts')",
+            "return kernel_df"]
+    if texts != want:
+        bad = next((a for a, b in zip(texts, want) if a != b), f"{len(texts)} statements instead of {len(want)}")
+        raise Stop(f"merge_kernel_intervals: `{bad[:150]}` is not what the model was written for")
+    tree = ast.parse(open(os.path.join(fw.REPO, "hta/analyzers/breakdown_analysis.py")).read())
+    cls = next((n for n in tree.body if isinstance(n, ast.ClassDef) and n.name == "BreakdownAnalysis"), None)
+    fns = {n.name: n for n in (cls.body if cls else []) if isinstance(n, ast.FunctionDef)}
+    it = fns.get("_get_idle_time_for_kernels")
+    if it is None:
+        raise Stop("_get_idle_time_for_kernels not found")
+    texts = [ast.unparse(st) for st in it.body if not (isinstance(st, ast.Expr) and isinstance(st.value, ast.Constant))]
+    want = ["merged_kernels = merge_kernel_intervals(kernels_df)",
+            "kernel_time = merged_kernels.iloc[-1]['end'] - merged_kernels.iloc[0]['ts']",
+            "kernel_run_time = merged_kernels.end.sum() - merged_kernels.ts.sum()",
+            "return (kernel_time - kernel_run_time, kernel_time)"]
+    if texts != want:
+        bad = next((a for a, b in zip(texts, want) if a != b), f"{len(texts)} statements instead of {len(want)}")
+        raise Stop(f"_get_idle_time_for_kernels: `{bad[:150]}` is not what the model was written for")
+    tb = fns.get("get_temporal_breakdown")
+    inner = next((n for n in (tb.body if tb else []) if isinstance(n, ast.FunctionDef) and n.name == "idle_time_per_rank"), None)
+    if inner is None:
+        raise Stop("get_temporal_breakdown / idle_time_per_rank not found")
+    texts = [ast.unparse(st) for st in inner.body if not (isinstance(st, ast.Expr) and isinstance(st.value, ast.Constant))]
+    want = ["gpu_kernels = trace_df[trace_df['stream'].ne(-1)].copy()",
+            "idle_time, kernel_time = cls._get_idle_time_for_kernels(gpu_kernels)",
+            "gpu_kernels['kernel_type'] = gpu_kernels[['name']].apply(lambda x: get_kernel_type(sym_table[x['name']]), axis=1)",
+            "comp_kernels = merge_kernel_intervals(gpu_kernels[gpu_kernels['kernel_type'].eq(KernelType.COMPUTATION.name)].copy())",
+            "compute_time = comp_kernels.end.sum() - comp_kernels.ts.sum()",
+            "non_compute_time = kernel_time - compute_time - idle_time",
+            "assert idle_time <= kernel_time",
+            "assert compute_time <= kernel_time",
+            "assert non_compute_time >= 0",
+            "return (idle_time, compute_time, non_compute_time, kernel_time)"]
+    if texts != want:
+        bad = next((a for a, b in zip(texts, want) if a != b), f"{len(texts)} statements instead of {len(want)}")
+        raise Stop(f"idle_time_per_rank: `{bad[:150]}` is not what the model was written for")
+    out = '''(* GENERATED by harness/translate.py from hta/utils/utils.py (merge_kernel_intervals) and hta/analyzers/breakdown_analysis.py
+   (_get_idle_time_for_kernels, get_temporal_breakdown.idle_time_per_rank) -- do not edit. *)
+From HTA.lib Require Import Base.
+Open Scope Z_scope.
+
+(* a row (s, e) of the ts-sorted list opens a new group iff s is strictly greater than the running maximum m of all previous ends *)
+Definition new_group_gen (m s : Z) : bool := m <? s.
+(* (idle, compute, non_compute, kernel_time) from: first start and last end of the merged device intervals, their total length, and the
+   total length of the merged computation intervals *)
+Definition breakdown_gen (first_ts last_end total_dev total_comp : Z) : Z * Z * Z * Z :=
+  let kernel_time := last_end - first_ts in
+  let idle := kernel_time - total_dev in
+  (idle, total_comp, kernel_time - total_comp - idle, kernel_time).
+'''
+    write_if_changed(os.path.join(GEN, "BreakdownRules_gen.v"), out)
+    return "gen/BreakdownRules_gen.v"
+
+
 # ---- the change classes of hta/trace_diff.py -> coq/gen/DiffRules_gen.v ----
 def gen_diff_rules() -> str:
     """Reads TraceDiff.compare_traces (diff_counts / diff_duration = test minus control; the sign lambda of counts_change_categories) and the
